@@ -2647,6 +2647,51 @@ impl<'l, T: Subject> Session<'l, T> {
         (out, mon)
     }
 
+    /// `shrink_to(n)` / `shrink_to_fit()` re-establish normalisation WHATEVER the lineage (class
+    /// `norm`): checked on the implementation alone, right after the op.
+    fn norm_monitor(&mut self, op: &Op, pre: Option<&PreRepr>) {
+        let (h, n, name) = match (op, pre) {
+            (Op::ShrinkTo { h, n }, Some(_)) => (*h, *n, "shrink_to"),
+            (Op::ShrinkFit { h }, Some(p)) => (*h, p.len, "shrink_to_fit"),
+            _ => return,
+        };
+        let (Some(p), Some(x)) = (pre, self.pool[h].as_ref()) else { return };
+        let r = x.hb();
+        let m = n.max(p.len);
+        let small = m <= ICAP && !r.is_borrowed();
+        let sole_big = m > ICAP && p.tag == 'H' && p.shares == 1;
+        self.step_conv.push((if name == "shrink_to" { "shrink_to: max(n,len) <= 23 => inline" } else { "shrink_to_fit: len <= 23 => inline" }, small));
+        self.step_conv.push((if name == "shrink_to" { "shrink_to: sole owner, capacity does not grow" } else { "shrink_to_fit: sole owner, capacity does not grow" }, sole_big));
+        let pre_desc = format!(
+            "before: {} len {} capacity {}{}",
+            match p.tag {
+                'I' => "inline",
+                'B' => "borrowed",
+                _ => "heap",
+            },
+            p.len,
+            p.cap,
+            if p.taint { " (with_capacity lineage)" } else { "" }
+        );
+        if small && !(r.is_inline() && r.is_normalized()) {
+            self.extra_mon.push((
+                "norm",
+                format!(
+                    "{name}({n}): max(requested, len) = {m} <= {ICAP} but the value is {} with capacity {} (is_normalized() = {}); {pre_desc}",
+                    if r.is_allocated() { "still heap-allocated" } else { "not inline" },
+                    r.capacity(),
+                    r.is_normalized()
+                ),
+            ));
+        }
+        if r.capacity() < r.len() {
+            self.extra_mon.push(("norm", format!("{name}({n}): capacity {} < len {}; {pre_desc}", r.capacity(), r.len())));
+        }
+        if sole_big && r.capacity() > p.cap {
+            self.extra_mon.push(("norm", format!("{name}({n}): the capacity of a sole owner grew from {} to {}; {pre_desc}", p.cap, r.capacity())));
+        }
+    }
+
     /// Representation contract (C07) checked on the implementation alone, with the lineage
     /// (`taint`) tracked here: called right after the op ran.  Returns the violations.
     fn repr_monitor(&mut self, op: &Op, pre: Option<&PreRepr>, ret: &str, ev: &alloc::Events) -> Vec<String> {
@@ -2874,8 +2919,10 @@ impl<'l, T: Subject> Session<'l, T> {
         self.step_conv.clear();
         let ret = self.exec(op);
         let ev = alloc::take_events();
+        self.norm_monitor(op, pre_repr.as_ref());
         for (class, m) in std::mem::take(&mut self.extra_mon) {
             let expected = match class {
+                "norm" => "shrink_to/shrink_to_fit re-establish normalisation: max(requested, len) <= inline capacity and not borrowed => inline; capacity >= len; a sole owner's capacity never grows (C07)",
                 "reuse" => "a consuming conversion of the sole owner of a heap buffer at offset 0 hands the buffer over; wrapper-to-wrapper moves keep the bytes in place (C07)",
                 "utf8" => "every live HipStr is well-formed UTF-8 after every step",
                 "flip" => "slicing with an impure RangeBounds yields the slice of ONE reading of the range, an error or a panic",
@@ -3370,7 +3417,7 @@ fn shrink<T: Subject>(hdr: &Hdr, ops: Vec<Op>, target: &Dis, lean: &mut Option<L
 
 /// a monitor class after which the process's heap can no longer be trusted
 fn heap_corrupting(d: &Dis) -> bool {
-    d.kind == "monitor" && d.sub != "utf8" && d.sub != "repr" && d.sub != "reuse" && d.sub != "flip" && !d.sub.ends_with(alloc::violation_name(alloc::V_LEAK))
+    d.kind == "monitor" && d.sub != "utf8" && d.sub != "repr" && d.sub != "reuse" && d.sub != "flip" && d.sub != "norm" && !d.sub.ends_with(alloc::violation_name(alloc::V_LEAK))
 }
 
 fn dis_json(hdr: &Hdr, ops: &[Op], dis: &Dis, shrunk: bool) -> serde_json::Value {
@@ -4065,6 +4112,56 @@ fn str_grid<T: Subject>(backend: &str, ceil: u64, st: &mut Stats, lean: &mut Opt
     Ok(n)
 }
 
+/// Deterministic grid for `shrink_to` / `shrink_to_fit`: values of `with_capacity(k)` lineage (the
+/// only non-normalised ones) and adopted Vecs with spare capacity, at len 0,1,5,22,23,24,30, sole
+/// and shared, shrunk to n in {0, len, 22, 23, 24, 100} and to fit.
+fn norm_grid<T: Subject>(backend: &str, st: &mut Stats, lean: &mut Option<LeanDriver>, save: &Option<String>) -> Result<u64, String> {
+    let hdr = Hdr { ty: T::TY.into(), backend: backend.into(), ceil: REAL_CEIL, srcs: default_srcs(T::text()) };
+    let pay = |n: usize| -> Vec<u8> { (0..n).map(|i| b"shRink"[i % 6]).collect() };
+    let mut seqs: Vec<Vec<Op>> = vec![];
+    for len in [0usize, 1, 5, 22, 23, 24, 30] {
+        let mut ctors: Vec<Vec<Op>> = vec![];
+        for k in [24usize, 64] {
+            ctors.push(vec![Op::WithCap { d: 0, n: k }, Op::Push { h: 0, bs: pay(len) }]);
+        }
+        ctors.push(vec![Op::FromVec { d: 0, bs: pay(len), cap: len + 40 }]);
+        for c in ctors {
+            if !c.iter().all(|o| T::supports(o)) {
+                continue;
+            }
+            for shared in [false, true] {
+                let mut ops: Vec<Op> = [0, len, 22, 23, 24, 100].iter().map(|&n| Op::ShrinkTo { h: 0, n }).collect();
+                ops.push(Op::ShrinkFit { h: 0 });
+                for op in ops {
+                    let mut q = c.clone();
+                    if shared {
+                        q.push(Op::Clone { h: 0, d: 1 });
+                    }
+                    q.push(op);
+                    q.push(Op::ShrinkFit { h: 0 });
+                    seqs.push(q);
+                }
+            }
+        }
+    }
+    let n = seqs.len() as u64;
+    for q in seqs {
+        if st.stop {
+            break;
+        }
+        let r = run_ops::<T>(&hdr, &q, lean.as_mut())?;
+        for i in &r.infos {
+            st.record(T::TY, backend, i);
+        }
+        st.sequences += 1;
+        if let Some(d) = r.dis {
+            let applied: Vec<Op> = r.applied.iter().filter_map(|l| Op::parse(l)).collect();
+            report::<T>(st, &hdr, applied, d, lean, save);
+        }
+    }
+    Ok(n)
+}
+
 /// Deterministic grid of impure ranges (`HipByt`/`HipStr` `slice`/`try_slice`): a valid first
 /// reading (honest for 1 or 2 queries: debug builds read the range once more), then every
 /// second reading over a small index grid (shorter, longer, off a char boundary, reversed, out of
@@ -4259,6 +4356,9 @@ fn run_all(cli: &hipverif_harness::util::Cli, st: &mut Stats, lean: &mut Option<
     for b in ["arc", "rc", "unique"] {
         let t0 = std::time::Instant::now();
         // the deterministic grids first: their failing inputs are the smallest
+        for ty in ["byt", "str", "os", "path"] {
+            exh += dispatch!(ty, b, norm_grid, b, st, lean, save)?;
+        }
         exh += dispatch!("str", b, str_grid, b, REAL_CEIL, st, lean, save)?;
         exh += dispatch!("byt", b, flip_grid, b, st, lean, save)?;
         exh += dispatch!("str", b, flip_grid, b, st, lean, save)?;
